@@ -371,8 +371,10 @@ def main(argv):
         'wall_s': round(time.time() - t0, 2),
         'violations': len(violations),
     }
-    os.makedirs(os.path.join(ROOT, 'evidence'), exist_ok=True)
-    json.dump(ev, open(os.path.join(ROOT, 'evidence', '%s.json' % pid), 'w'), indent=1)
+    # a run against a scratch copy (VX_REPO, used for seeded changes) must not overwrite the evidence of /repo
+    evdir = os.path.join(ROOT, 'evidence') if REPO == '/repo' else os.path.join(WORK, 'evidence-scratch')
+    os.makedirs(evdir, exist_ok=True)
+    json.dump(ev, open(os.path.join(evdir, '%s.json' % pid), 'w'), indent=1)
 
     for ln in known_lines:
         print(ln)
